@@ -10,7 +10,10 @@ MAP = {"1": ["C09", "C10", "C11", "C07"], "2": ["C11", "C10", "C07"], "3": ["C08
        # batch 2
        "13": ["C09", "C10", "C11"], "14": ["C10", "C07"], "15": ["C08", "C07"], "16": ["C03", "C02"], "17": ["C01", "C05", "C06"], "18": ["C16", "C17"],
        "19": ["C14", "C07", "C13"], "20": ["C10", "C03", "C02"], "21": ["C17", "C16"], "22": ["C15", "C17"], "23": ["C19"], "24": ["C16", "C03"],
-       "25": ["C05", "C01"], "26": ["C20"]}
+       "25": ["C05", "C01"], "26": ["C20"],
+       # batch 3 (circuit-building code)
+       "27": ["C08", "C07"], "28": ["C08"], "29": ["C09", "C11"], "30": ["C09", "C10"], "31": ["C10", "C07"], "32": ["C10"], "33": ["C11", "C10"], "34": ["C11"],
+       "35": ["C11", "C09"], "36": ["C11", "C07"], "37": ["C08"], "38": ["C08", "C04"], "39": ["C15", "C17"], "40": ["C15", "C01"], "41": ["C20", "C01"], "42": ["C20", "C15"]}
 if len(sys.argv) > 1:
     MAP = {k: v for k, v in MAP.items() if k in sys.argv[1:]}
 bad = 0
